@@ -122,7 +122,45 @@ func solveObligation(o *Obligation, dir string, timeoutS int, needAgree int, whi
 	return solveObligation1(o, dir, timeoutS, needAgree, which, "")
 }
 
+// solveObligation1 stages the attempts: relevance-sliced hypotheses with a short budget (the common case:
+// small scripts, answers in well under a second), then every hypothesis with the same short budget (the
+// slicer only drops assumptions: sound, not complete -- when it dropped a needed one the full script is
+// usually decided at once), then the sliced script again with the whole budget.
 func solveObligation1(o *Obligation, dir string, timeoutS int, needAgree int, which []solverSpec, suffix string) *SolveResult {
+	decided := func(r *SolveResult) bool {
+		return r.Result == "unsat" || r.Result == "sat" || r.Result == "disagree"
+	}
+	short := timeoutS / 4
+	if short < 3 {
+		short = 3
+	}
+	if o.Canary || o.Unsliced || short >= timeoutS {
+		return solveObligation2(o, dir, timeoutS, needAgree, which, suffix)
+	}
+	r := solveObligation2(o, dir, short, needAgree, which, suffix)
+	if decided(r) {
+		return r
+	}
+	total := r.Secs
+	c := *o
+	c.Unsliced = true
+	r2 := solveObligation2(&c, dir, short, needAgree, which, suffix+".full")
+	r2.obl = o
+	total += r2.Secs
+	if r2.Result == "unsat" {
+		r2.Backend += "+unsliced"
+		r2.Secs = total
+		return r2
+	}
+	r3 := solveObligation2(o, dir, timeoutS, needAgree, which, suffix)
+	r3.Secs += total
+	if !decided(r3) {
+		r3.Output += "\n-- with all hypotheses --\n" + r2.Output
+	}
+	return r3
+}
+
+func solveObligation2(o *Obligation, dir string, timeoutS int, needAgree int, which []solverSpec, suffix string) *SolveResult {
 	script := o.Script(false)
 	fn := filepath.Join(dir, sanitize(o.Name)+suffix+".smt2")
 	os.WriteFile(fn, []byte(script), 0o644)
